@@ -29,3 +29,7 @@ pub const HQ_VERSION: &str = {
         None => const_format::concatcp!(env!("CARGO_PKG_VERSION"), "-dev"),
     }
 };
+
+/// Verification hooks (add-only; compiled only with `--cfg it4innovations_hyperqueue_verif`).
+#[cfg(it4innovations_hyperqueue_verif)]
+pub mod verif;
